@@ -77,11 +77,25 @@ LAUNCHER_DESIGN = '''import os
 import peppercompiler.design.spurious_design as _sd
 _orig_design = _sd.design
 def _design(*a, **kw):
-    kw.setdefault("findmfe", False)
+    kw.setdefault("findmfe", os.environ.get("C20_FINDMFE") == "1")
     kw.setdefault("spuriousbinary", os.environ["C20_SSM"])
     return _orig_design(*a, **kw)
 _sd.design = _design
 ''' + LAUNCHER
+
+# stand-in for NUPACK's `mfe` program ($NUPACKHOME/bin/mfe -T <t> -material dna -multi <prefix>): reads <prefix>.in, writes
+# <prefix>.mfe in NUPACK's output layout with the open structure.  It lets the design runs go through the REAL NUPACK wrapper
+# (DNAfold / DNAfold_Nupack: scratch files from tempfile in $TMPDIR, shell call, result parser) with findmfe=True.
+MFE_STUB = '''#!%s
+import sys
+prefix = sys.argv[-1]
+lines = open(prefix + ".in").read().split("\\n")
+n = int(lines[0])
+seqs = [l.strip() for l in lines[1:1 + n]]
+struct = "+".join("." * len(x) for x in seqs)
+with open(prefix + ".mfe", "w") as f:
+    f.write("%%%% stand-in for NUPACK mfe\\n%%%% sequences: " + " ".join(seqs) + "\\n\\n%%d\\n-0.000\\n%%s\\n" %% (sum(len(x) for x in seqs), struct))
+''' % PY
 
 MKMFE = '''import sys
 from peppercompiler.design.constraint_load import Convert
@@ -107,11 +121,22 @@ mkmfe(sys.argv[1], sys.argv[2])
 '''
 
 
+NUPACK_HOME = [None, None]     # set by run(): (directory holding bin/mfe, the TMPDIR of the children)
+
+
+def cmd_env(env, cmd):
+    return dict(env, C20_FINDMFE="1") if cmd.get("findmfe") else env
+
+
 def child_env():
     e = dict(os.environ)
     e["PYTHONDONTWRITEBYTECODE"] = "1"
     e["PYTHONPATH"] = core.REPO
     e["C20_SSM"] = ssm.build(False)
+    if NUPACK_HOME[0]:
+        e["NUPACKHOME"] = NUPACK_HOME[0]
+        e["TMPDIR"] = NUPACK_HOME[1]
+    e.pop("C20_FINDMFE", None)
     e[core.GUARD] = "1"
     e[core.GUARD + "_SEED"] = "20"       # replayable random stream of spuriousSSM: concurrent and sequential runs comparable
     e.pop(core.GUARD + "_TRACE", None)
@@ -199,7 +224,7 @@ def prepare_base(root, bindir, name, src, main):
 FULL_RUN_PARS = ["imax=25"]   # spuriousSSM parameters of full design runs (positional arguments after the input name)
 
 
-def mk_cmd(tool, arg0, rng=None, des=False, just_files=True, struct=False, keep_temp=False, decoys=(), dirs=(), **opts):
+def mk_cmd(tool, arg0, rng=None, des=False, just_files=True, struct=False, keep_temp=False, decoys=(), dirs=(), findmfe=False, **opts):
     opts = {k: v for k, v in opts.items() if v is not None}
     argv = [arg0]
     long = {"output": "--output", "save": "--save", "tempname": "--tempname", "design": "--design", "seqs": "--seqs",
@@ -227,7 +252,7 @@ def mk_cmd(tool, arg0, rng=None, des=False, just_files=True, struct=False, keep_
     if tool == "design" and not just_files:
         argv += FULL_RUN_PARS
     return {"tool": tool, "arg0": arg0, "opts": opts, "des": des, "just_files": just_files, "struct": struct, "argv": argv,
-            "keep_temp": keep_temp, "decoys": list(decoys), "dirs": list(dirs)}
+            "keep_temp": keep_temp, "decoys": list(decoys), "dirs": list(dirs), "findmfe": bool(findmfe and not just_files)}
 
 
 def strip_ext(name, exts):
@@ -404,11 +429,11 @@ def footprint_cases(rng, sysd):
         ("ok", mk_cmd("compile", main, rng, output="dir%s.pil" % u, save="dir%s.save" % u, dirs=["dir" + u])),
         # full design runs (designer started, .mfe written, scratch files cleaned up or kept); beside them lie the scratch
         # files of OTHER runs whose temp names extend / are extended by this run's temp name
-        ("ok", mk_cmd("design", b, rng, just_files=False, tempname="f" + u,
+        ("ok", mk_cmd("design", b, rng, just_files=False, findmfe=True, tempname="f" + u,
                       decoys=["f%s.b%s" % (u, e) for e in TEMP_EXTS] + ["f%s%s.st" % (u, TEMP_EXTS[0]), "f" + u[:1] + ".sp", "f%s.mfe" % u])),
         ("ok", mk_cmd("design", b + ".pil", rng, just_files=False, keep_temp=True, tempname="k" + u + ".1", output="mk" + u + ".mfe",
                       decoys=["k%s%s" % (u, e) for e in TEMP_EXTS] + ["k%s.1.x%s" % (u, e) for e in TEMP_EXTS])),
-        ("ok", mk_cmd("design", b, rng, just_files=False, struct=True,
+        ("ok", mk_cmd("design", b, rng, just_files=False, struct=True, findmfe=True,
                       decoys=["%s.run2%s" % (b, e) for e in TEMP_EXTS] + [b + ".pil.st", b + ".mfe.sp"])),
         ("ok", mk_cmd("finish", b)),
         ("ok", mk_cmd("finish", b + ".mfe", rng, seqs="q" + u + ".seqs", strands="r" + u + ".strands")),
@@ -431,7 +456,7 @@ def run_footprint_case(root, bindir, sysd, idx, expect, cmd):
     t0 = time.time()
     p = subprocess.run(["strace", "-f", "-y", "-e", "trace=" + STRACE_CALLS, "-o", tr,
                         PY, os.path.join(bindir, SCRIPT[cmd["tool"]])] + cmd["argv"],
-                       cwd=wd, env=child_env(), stdout=subprocess.DEVNULL, stderr=subprocess.PIPE, timeout=600)
+                       cwd=wd, env=cmd_env(child_env(), cmd), stdout=subprocess.DEVNULL, stderr=subprocess.PIPE, timeout=600)
     dt = time.time() - t0
     after = snapshot(wd)
     after_names = sorted(os.listdir(wd))
@@ -464,7 +489,12 @@ def judge_footprint(res, sysd, r, model):
     if succeeded:
         res.nontriv(inp)
     # --- oracle 1 (strace): nothing outside the allowed files is opened for writing / created / removed / renamed
-    extra = sorted(obs["writes"] - spec["writes"]) + sorted(obs["outside"])
+    # the NUPACK wrapper keeps its own scratch pair (tempfile: mfe_XXXXXXXX.in / .mfe) in the system's temp directory, outside the
+    # working directory the property speaks about
+    tmpd = NUPACK_HOME[1]
+    # (plus the probe file tempfile creates once to find a usable temp directory)
+    outside = {p_ for p_ in obs["outside"] if not (cmd.get("findmfe") and tmpd and os.path.dirname(p_) == os.path.realpath(tmpd))}
+    extra = sorted(obs["writes"] - spec["writes"]) + sorted(outside)
     missing = sorted(spec["writes"] - obs["writes"]) if succeeded else []
     if extra or missing or obs["chdir"]:
         res.violations.append({"what": "%s touched files outside its output/save/scratch set (extra) or did not write an "
@@ -561,7 +591,7 @@ def gen_schedule(rng, sysd, n):
             full = rng.random() < 0.4          # the whole design run: designer, .mfe, cleanup (or --keep-temp)
             cmds.append(mk_cmd("design", rng.choice([b, b + ".pil", "Raw" + b]) if t is not None else b, rng,
                                struct=rng.random() < 0.5, tempname=t, just_files=not full,
-                               keep_temp=full and rng.random() < 0.5,
+                               keep_temp=full and rng.random() < 0.5, findmfe=full and rng.random() < 0.5,
                                output=("m%d.mfe" % k) if (full or rng.random() < 0.5) else None))
         else:
             if not default_seqs and rng.random() < 0.15:
@@ -581,7 +611,7 @@ def start_all(cmds, wd, ctl, bindir, concurrent_mode):
     rcs, errs = [], []
     if not concurrent_mode:
         for k, c in enumerate(cmds):
-            p = run_tool(bindir, c["tool"], c["argv"], wd, env)
+            p = run_tool(bindir, c["tool"], c["argv"], wd, cmd_env(env, c))
             rcs.append(p.returncode)
             errs.append(p.stderr.decode(errors="replace")[-300:])
         return rcs, errs
@@ -592,7 +622,7 @@ def start_all(cmds, wd, ctl, bindir, concurrent_mode):
         fcntl.flock(lf, fcntl.LOCK_EX)
         try:
             for k, c in enumerate(cmds):
-                e = dict(env, C20_BARRIER=lock, C20_READY=os.path.join(ctl, "ready.%d" % k), C20_DELAY=str(c.get("delay", 0)))
+                e = dict(cmd_env(env, c), C20_BARRIER=lock, C20_READY=os.path.join(ctl, "ready.%d" % k), C20_DELAY=str(c.get("delay", 0)))
                 with open(os.path.join(ctl, "err.%d" % k), "wb") as ef:
                     procs.append(subprocess.Popen([PY, os.path.join(bindir, SCRIPT[c["tool"]])] + c["argv"], cwd=wd,
                                                   env=e, stdout=subprocess.DEVNULL, stderr=ef))
@@ -800,6 +830,12 @@ def run(st, tier, seed):
                 f.write((LAUNCHER_DESIGN if tool == "design" else LAUNCHER) % mod)
         with open(os.path.join(bindir, "mkmfe.py"), "w") as f:
             f.write(MKMFE)
+        os.makedirs(os.path.join(bindir, "nupack", "bin"))
+        with open(os.path.join(bindir, "nupack", "bin", "mfe"), "w") as f:
+            f.write(MFE_STUB)
+        os.chmod(os.path.join(bindir, "nupack", "bin", "mfe"), 0o755)
+        os.makedirs(os.path.join(root, "tmpdir"))
+        NUPACK_HOME[0], NUPACK_HOME[1] = os.path.join(bindir, "nupack"), os.path.join(root, "tmpdir")
         systems = []
         for d, main in EXAMPLE_SYSTEMS[:n_examples]:
             systems.append(prepare_base(root, bindir, re.sub(r"\W", "_", (d or "examples") + "_" + main),
